@@ -331,8 +331,10 @@ def run(rep, tier):
         plan.append(('B full P<=2, K=4', variants_b((1, 2), (4,), (1, 2)), None))
         plan.append(('B forced<=1 P<=2, K in 0..2', variants_b((1, 2), (0, 1, 2), (1, 2), forced=True), 1))
         plan.append(('B forced<=1, two blocks on the same steps (what a forced block leaves behind), P<=2, K in 1..2', [dict(c, nblocks=2, conv_cost=1) for c in variants_b((1, 2), (1, 2), (1,), forced=True)], 1))
+        plan.append(('B residual answers incl. not-a-number (<=2 non-default answers), P<=2, K in 1..3', [dict(c, nan_answers=True, conv_cost=1) for c in variants_b((1, 2), (1, 2, 3), (1, 2))], 2))
         plan.append(('B forced<=1, a second run() on the same controller, P<=2, K in 1..2', [dict(c, second_run=0.125 * c['P'], conv_cost=1) for c in variants_b((1, 2), (1, 2), (1,), forced=True)], 1))
     else:
+        plan.append(('B residual answers incl. not-a-number (<=3 non-default answers), P<=3, K in 0..3', [dict(c, nan_answers=True, conv_cost=1) for c in variants_b((1, 2, 3), (0, 1, 2, 3), (1, 2))], 3))
         plan.append(('B forced<=2, a second run() on the same controller, P<=3, K in 0..2', [dict(c, second_run=0.125 * c['P'], conv_cost=1) for c in variants_b((1, 2, 3), (0, 1, 2), (1, 2), forced=True)], 2))
         plan.append(('B full P<=3, K in 0..4, L<=2', variants_b((1, 2, 3), (0, 1, 2, 3, 4), (1, 2)), None))
         plan.append(('B forced<=1 P<=3, K in 0..3', variants_b((1, 2, 3), (0, 1, 2, 3), (1, 2), forced=True), 1))
